@@ -159,11 +159,15 @@ func HandleBulkBody(postBody []byte, ctx *fasthttp.RequestCtx, rid uint64, myid 
 	remainingPostBody := postBody
 	for {
 		line, remainingPostBody = utils.ReadLine(remainingPostBody)
-		if len(remainingPostBody) == 0 {
+		// stop at the end of the body only; a last action line that is not followed
+		// by anything must still get its response item
+		if len(line) == 0 && len(remainingPostBody) == 0 {
 			break
 		}
 
 		inCount++
+		// the size check is per item
+		maxRecordSizeExceeded = false
 		if inCount >= len(items) {
 			newArr := make([]interface{}, 100)
 			items = append(items, newArr...)
@@ -235,6 +239,7 @@ func HandleBulkBody(postBody []byte, ctx *fasthttp.RequestCtx, rid uint64, myid 
 
 		if !success {
 			responsebody := make(map[string]interface{})
+			overallError = true
 			if maxRecordSizeExceeded {
 				error_response := utils.BulkErrorResponse{
 					ErrorResponse: *utils.NewBulkErrorResponseInfo("request entity too large", "request_entity_exception"),
@@ -243,7 +248,6 @@ func HandleBulkBody(postBody []byte, ctx *fasthttp.RequestCtx, rid uint64, myid 
 				responsebody["status"] = 413
 				items[inCount-1] = responsebody
 			} else {
-				overallError = true
 				error_response := utils.BulkErrorResponse{
 					ErrorResponse: *utils.NewBulkErrorResponseInfo("indexing request failed", "mapper_parse_exception"),
 				}
